@@ -228,6 +228,31 @@ func c08Faults() []fault {
 	add("syntax-error-filter/scan", func(r *rand.Rand, t string, p, a val.Item) []adapt.Op {
 		return one(adapt.Op{Kind: adapt.OpScan, Table: t, Filter: "v = = :v", Values: val.Item{":v": val.Num("1")}})
 	})
+	// READS that fail while items are being evaluated (a filter that compares a number with a BOOL: refused as soon as an
+	// item has the attribute), on the table and through every index, forward and backward: a read that fails leaves
+	// no trace either - every later read returns what it returned before (the read may also pass when it meets no item)
+	for _, src := range []struct{ index, attr string }{{"", "h"}, {"gsi1", "g"}, {"gsi2", "g"}, {"lsi1", "h"}, {"gsi4", "r"}} {
+		for _, rev := range []bool{false, true} {
+			for _, kind := range []string{adapt.OpQuery, adapt.OpScan} {
+				src, rev, kind := src, rev, kind
+				if kind == adapt.OpScan && rev {
+					continue
+				}
+				fs = append(fs, fault{id: fmt.Sprintf("failing-read/%s/%s/rev=%v", kind, src.index, rev), mayPass: true, mk: func(r *rand.Rand, t string, p, a val.Item) []adapt.Op {
+					op := adapt.Op{Kind: kind, Table: t, Index: src.index, Rev: rev, Filter: "v < :flag", Values: val.Item{":flag": val.Bool(true)}}
+					if kind == adapt.OpQuery {
+						pv, ok := p[src.attr]
+						if !ok {
+							pv = ixV(src.attr, map[string][]string{"h": ixHashPool, "g": ixGPool, "r": ixRangePool}[src.attr][0])
+						}
+						op.KeyCnd = src.attr + " = :k"
+						op.Values[":k"] = pv
+					}
+					return one(op)
+				}})
+			}
+		}
+	}
 	add("ill-typed-update-add", func(r *rand.Rand, t string, p, a val.Item) []adapt.Op {
 		return one(rawUpdate(t, k(p), "ADD h :v", nil, val.Item{":v": val.Num("1")}))
 	})
